@@ -67,6 +67,10 @@ def correspondence(ctx, violations, known_hits):
             items = asmgen.gen_program(rnd, stack=bool(feat), nstmts=rnd.choice([1, 3, 6]))
             text = "halt\n" + asmgen.render(rnd, items, style=rnd.choice(["plain", "random"]))   # halts at once, assembles the rest
         progs.append((feat, text, bytes(rnd.randrange(256) for _ in range(rnd.choice([0, 0, 2])))))
+    # programs around HALF and around the WHOLE of the address space (x7FFF, x8000, x8001 ... words): the object file is
+    # the origin and then every word, in order, however many there are
+    for pad, org in ((0x7FF8, "x3000"), (0x7FF9, "x3000"), (0x7FFA, "x3000"), (0x7FFB, "x0000"), (0xC000, "x0000"), (0xFFF0, "x0000"), (0xFFF8, "x0000"), (0xFFF9, "x0000")):
+        progs.append((0, f".orig {org}\nlea r0 msg\nputs\nhalt\nmsg .stringz \"ok\"\npad .blkw x{pad:X}\n.fill xBEEF\n.fill xCAFE\n", b""))
     fuel = 20000
     model_obj = ctx.run_model([obj_case(f, t) for f, t, _ in progs], tag="obj")
     model_src = ctx.run_model([src_case(f, fuel, t, inp) for f, t, inp in progs], tag="src")
@@ -95,14 +99,46 @@ def correspondence(ctx, violations, known_hits):
             data = open(os.path.join(sub, "out.lc3"), "rb").read() if os.path.exists(os.path.join(sub, "out.lc3")) else None
             r_src = clicommon.run_cli(exe, ["run", "p.asm", "--minimal"] + fl, sub, stdin=inp)
             r_obj = clicommon.run_cli(exe, ["run", "out.lc3", "--minimal"] + fl, sub, stdin=inp) if data is not None else None
-            return rc, data, r_src, r_obj
+            other = None
+            if i % 4 == 0:
+                # the other ways of saying the same thing: `lace FILE` without a sub-command, the object file under the
+                # .obj extension, `compile` without a destination (writes <name>.lc3 into the current directory)
+                r_bare = clicommon.run_cli(exe, fl + ["p.asm", "--minimal"], sub, stdin=inp)
+                r_objx = None
+                if data is not None:
+                    with open(os.path.join(sub, "copy.obj"), "wb") as f:
+                        f.write(data)
+                    r_objx = clicommon.run_cli(exe, ["run", "copy.obj", "--minimal"] + fl, sub, stdin=inp)
+                dd = os.path.join(sub, "dd"); os.makedirs(dd, exist_ok=True)
+                rc_d, _, _ = clicommon.run_cli(exe, ["compile", os.path.join("..", "p.asm")] + fl, dd)
+                made = sorted(os.listdir(dd))
+                d_data = open(os.path.join(dd, "p.lc3"), "rb").read() if made == ["p.lc3"] else None
+                other = (r_bare, r_objx, rc_d, made, d_data)
+            return rc, data, r_src, r_obj, other
         return run
 
     results = clicommon.parallel([job(i) for i in range(len(progs))])
     ev, sigs, samples, nv = 0, set(), [], 0
     hist = {"compiled": 0, "rejected": 0, "run-equal": 0, "skipped-nonterminating": 0}
-    for i, (rc, data, r_src, r_obj) in enumerate(results):
+    for i, (rc, data, r_src, r_obj, other) in enumerate(results):
         feat, text, inp = progs[i]
+        if other is not None:
+            r_bare, r_objx, rc_d, made, d_data = other
+            ev += 1
+            why = None
+            if (r_bare[0], clicommon.program_output(r_bare[1])) != (r_src[0], clicommon.program_output(r_src[1])):
+                why = "`lace FILE` differs from `lace run FILE`"
+            elif r_objx is not None and r_obj is not None and (r_objx[0], clicommon.program_output(r_objx[1])) != (r_obj[0], clicommon.program_output(r_obj[1])):
+                why = "the object file runs differently under the .obj extension"
+            elif rc_d != rc or (rc == 0 and (made != ["p.lc3"] or d_data != data)) or (rc != 0 and made):
+                why = "`compile` without a destination: status or <name>.lc3 in the current directory differs from `compile FILE DEST`"
+            if why:
+                nv += 1
+                if nv <= 8:
+                    violations.append({"kind": "invocation-forms", "why": why, "source": text, "feature_stack": feat, "stdin": inp.hex(),
+                                       "run": [r_src[0], clicommon.program_output(r_src[1])], "bare": [r_bare[0], clicommon.program_output(r_bare[1])],
+                                       "compile_exit": rc, "compile_default_exit": rc_d, "files_in_cwd": made,
+                                       "default_bytes": d_data.hex()[:200] if d_data else None})
         mo = [int(x, 16) for x in model_obj[i][0].split()]
         ev += 1
         exp_bytes = bytes(mo[2:2 + mo[1]]) if mo[0] == 0 else None
@@ -128,6 +164,16 @@ def correspondence(ctx, violations, known_hits):
             hist["skipped-nonterminating"] += 1
             continue
         src_obs = (r_src[0], clicommon.program_output(r_src[1]))
+        if mo[0] != 0:
+            # rejected by compile (and by the model): `run` of the source must reject it too; what lies at the destination is
+            # the untouched file of an earlier build, not an object of this source
+            ev += 1
+            if src_obs[0] != code:
+                nv += 1
+                if nv <= 8:
+                    violations.append({"kind": "run-source-vs-object-vs-model", "source": text, "stdin": inp.hex(),
+                                       "run_source": [src_obs[0], src_obs[1]], "run_object": None, "model": [code, out]})
+            continue
         if data is not None:
             obj_obs = (r_obj[0], clicommon.program_output(r_obj[1]))
             ev += 1
@@ -171,7 +217,7 @@ def correspondence(ctx, violations, known_hits):
         "evaluations": ev, "distinct_nontrivial": len(sigs),
         "rule": "CLI: `lace compile` bytes and exit status vs the model's object bytes for random programs (both feature settings; the destination absent, or already holding a longer or a shorter object file), "
                 "all origins); `lace run file.lc3` vs `lace run file.asm` vs the model (exit status and program output, with stdin); "
-                "loader fed byte strings of every length 0-9, odd lengths, images ending at/below/above the top of memory and random "
+                "the same through the other invocation forms (`lace FILE`, the object under .obj, `compile` without a destination); loader fed byte strings of every length 0-9, odd lengths, images ending at/below/above the top of memory and random "
                 "images, as .lc3 and .obj; distinct = distinct (kind, outcome, size class)",
         "histogram": hist, "loader_histogram": {str(k): v for k, v in lhist.items()}, "samples": samples, "mismatches": nv,
     }
